@@ -36,6 +36,7 @@
 (*                 inaccurate otherwise; Fast2Sum(x, y) itself is only     *)
 (*                 specified for exponent(x) >= exponent(y) (or a zero     *)
 (*                 operand).  LENIENCY: fast = True is judged only when    *)
+(*                 the input is Sorted (the docstring's precondition) AND  *)
 (*                 every Fast2Sum application of the documented algorithm  *)
 (*                 (VecSum right-to-left, then VecSumErrBranch, run here   *)
 (*                 with the ideal error-free sum) meets that precondition. *)
